@@ -739,6 +739,16 @@ func (e *Env) binary(t EBinary) (Val, error) {
 				return v, nil
 			}
 		}
+		if a.T == nil && b.T == nil && a.Re != nil && b.Re != nil && (t.Op == "+" || t.Op == "-" || t.Op == "*") {
+			ar, br := a.Re, b.Re
+			tk := map[string]token.Token{"+": token.ADD, "-": token.SUB, "*": token.MUL}[t.Op]
+			v := scalar(nil, App(t.Op, SInt, a.One(), b.One()))
+			v.Re = func(ii intInfo) Term {
+				r, _ := u.BinArith(tk, ar(ii), br(ii), ii, ii)
+				return r.T
+			}
+			return v, nil
+		}
 		switch t.Op {
 		case "+":
 			return scalar(rt, App("+", SInt, a.One(), b.One())), nil
@@ -1086,7 +1096,7 @@ func (e *Env) callExpr(t ECall) (Val, error) {
 		n.names[p.Name] = v
 	}
 	n.fr = nil
-	if sf.HasMode && sf.Mode != u.Mode {
+	if sf.Uninterp || (sf.HasMode && sf.Mode != u.Mode) {
 		return n.uninterpreted(sf)
 	}
 	return n.Eval(sf.Body)
@@ -1131,7 +1141,9 @@ func (e *Env) uninterpreted(sf *SpecFunc) (Val, error) {
 	}
 	name := "spec$" + sf.Name
 	u.DeclareFun(name, sorts, ls[0].So)
-	u.Trust("abstract spec function " + sf.Name + " (defined in another integer mode; uninterpreted here, frame by its reads clause)")
+	if !sf.Uninterp {
+		u.Trust("abstract spec function " + sf.Name + " (defined in another integer mode; uninterpreted here, frame by its reads clause)")
+	}
 	return scalar(rt, App(name, ls[0].So, args...)), nil
 }
 
